@@ -212,7 +212,7 @@ def run(c):
 
     # ---- 3. record real executions -> trace validation ----------------------------------------
     traces = 0
-    for q in ([1, 3] if not thorough else [1, 2, 3, 5]):
+    for q in ([1, 3] if not thorough else [1, 2, 4]):
         ev = os.path.join(c.work, "trace_q%d.ndjson" % q)
         resj = os.path.join(c.work, "trace_q%d.json" % q)
         rc, so = c.sh([binp, "record", ev, resj], env={"VERIF_Q": q}, timeout=3000)
